@@ -8,9 +8,11 @@ Import ListNotations.
 Open Scope Z_scope.
 
 (* The repository's syncRange of RegistrySyncer / SequencerSyncer returns the error of its
-   transaction (fix commits in /repo); the pinned tree swallowed it (D8). *)
-Definition registry_legacy : bool := true.
-Definition sequencer_legacy : bool := true.
+   transaction (fix commits 0b3d76a, 737c434 in /repo); the pinned tree swallowed it (D8): the
+   legacy behaviour is the flavour flag fl_swallow = true (legacy_registry_flavour,
+   legacy_sequencer_flavour). *)
+Definition registry_legacy : bool := false.
+Definition sequencer_legacy : bool := false.
 
 Inductive which := WRegistry | WMulti | WSequencer.
 
